@@ -17,10 +17,10 @@ open GocoinV.Persist
 
 def ids (d : Disk) : List BlockId := d.idx.map (·.id)
 
-def GoodSnap (P : BlockId → List Coin → Prop) (d : Disk) (sn : Snap) : Prop :=
-  P sn.tip sn.coins ∧ (sn.tip = 0 ∨ sn.tip ∈ ids d)
+def GoodSnap (P : Snap → Prop) (d : Disk) (sn : Snap) : Prop :=
+  P sn ∧ (sn.tip = 0 ∨ sn.tip ∈ ids d)
 
-structure DiskInv (P : BlockId → List Coin → Prop) (d : Disk) : Prop where
+structure DiskInv (P : Snap → Prop) (d : Disk) : Prop where
   datCovers : ∀ id ∈ ids d, ∃ b ∈ d.dat, b.id = id
   datParent : ∀ b ∈ d.dat, b.parent = 0 ∨ b.parent ∈ ids d
   idxValid : ∀ r ∈ d.idx, r.invalid = false
@@ -29,11 +29,11 @@ structure DiskInv (P : BlockId → List Coin → Prop) (d : Disk) : Prop where
   oldGood : ∀ sn, d.old = some sn → GoodSnap P d sn
   tmpGood : ∀ t ∈ d.tmps, GoodSnap P d t.snap
 
-theorem DiskInv.empty (P : BlockId → List Coin → Prop) : DiskInv P {} := by
+theorem DiskInv.empty (P : Snap → Prop) : DiskInv P {} := by
   constructor <;> simp [ids]
 
 /-- what an effect must satisfy to keep the invariant: only three effects have a side condition -/
-def EffOK (P : BlockId → List Coin → Prop) (d : Disk) : Effect → Prop
+def EffOK (P : Snap → Prop) (d : Disk) : Effect → Prop
   | .createTmp sn => GoodSnap P d sn
   | .appendDat b => b.parent = 0 ∨ b.parent ∈ ids d
   | .appendIdx r => r.invalid = false ∧ (r.parent = 0 ∨ r.parent ∈ ids d) ∧ ∃ b ∈ d.dat, b.id = r.id
@@ -59,11 +59,11 @@ theorem ids_apply (d : Disk) (e : Effect) (h : ∀ r, e ≠ .appendIdx r) : ids 
 theorem ids_appendIdx (d : Disk) (r : IdxRec) : ids (apply d (.appendIdx r)) = ids d ++ [r.id] := by
   simp [ids, apply]
 
-theorem GoodSnap.mono {P : BlockId → List Coin → Prop} {d d' : Disk} {sn : Snap}
+theorem GoodSnap.mono {P : Snap → Prop} {d d' : Disk} {sn : Snap}
     (h : GoodSnap P d sn) (hi : ∀ x ∈ ids d, x ∈ ids d') : GoodSnap P d' sn :=
   ⟨h.1, h.2.imp id (hi _)⟩
 
-theorem apply_inv {P : BlockId → List Coin → Prop} {d : Disk} (h : DiskInv P d) (e : Effect) (ok : EffOK P d e) :
+theorem apply_inv {P : Snap → Prop} {d : Disk} (h : DiskInv P d) (e : Effect) (ok : EffOK P d e) :
     DiskInv P (apply d e) := by
   cases e with
   | nop => exact h
@@ -175,7 +175,7 @@ theorem apply_inv {P : BlockId → List Coin → Prop} {d : Disk} (h : DiskInv P
 
 /-! ### what NewChainExt makes of a directory that satisfies the invariant -/
 
-theorem loadTree_all {P : BlockId → List Coin → Prop} {d : Disk} (h : DiskInv P d) :
+theorem loadTree_all {P : Snap → Prop} {d : Disk} (h : DiskInv P d) :
     loadTree d = d.idx.map (fun r => { id := r.id, parent := r.parent, height := r.height }) := by
   unfold loadTree
   have h1 : d.idx.filter (fun r => !r.invalid) = d.idx := by
@@ -191,7 +191,7 @@ theorem loadTree_all {P : BlockId → List Coin → Prop} {d : Disk} (h : DiskIn
     simp only [Bool.or_eq_true, beq_iff_eq, List.any_eq_true]
     exact Or.inr ⟨x, hx, e⟩
 
-theorem recover_inv {P : BlockId → List Coin → Prop} {d : Disk} (h : DiskInv P d) :
+theorem recover_inv {P : Snap → Prop} {d : Disk} (h : DiskInv P d) :
     DiskInv P (recoverUnspent d).1 := by
   have hf := recover_fields d
   have hi : ids (recoverUnspent d).1 = ids d := by simp [ids, hf.2.2.2.2.1]
